@@ -508,4 +508,61 @@ example :
   · show (List.replicate 4096 (7 : UInt8) ++ [1]).take 4096 = (List.replicate 4096 (7 : UInt8) ++ [2]).take 4096
     rw [List.take_left' List.length_replicate, List.take_left' List.length_replicate]
 
+/-! ### A read that completes while `Close` runs
+
+`Close` closes the connection; a `ReadFrom` that had already got its datagram
+returns it all the same, and the NEXT read fails.  For the loop that is the
+history `a ++ [datagram, readError] ++ c`: the datagram was read successfully, so
+it is the handler's - exactly once, with its own decoding and sender - and
+`Serve` returns; nothing of `c` is processed.  (The scripts' event `k:<datagram>`;
+a server dropping what it had read "because it is closing" breaks this.) -/
+
+theorem C14_read_completing_during_close6 {α : Type} (dec6 : Bytes → Option α)
+    (a c : List ReadResult) (ha : a.all ReadResult.isDatagram = true)
+    (b : Bytes) (p : Peer) (m : α) (hd : dec6 (b.take readBufLen) = some m) :
+    let rs := a ++ .datagram b p :: .readError :: c
+    (serve6 dec6 rs).invocations.filter (fun v => v.idx == a.length) = [⟨a.length, m, p⟩] ∧
+      (serve6 dec6 rs).exit = .returned ∧
+      serve6 dec6 rs = serve6 dec6 (a ++ [.datagram b p, .readError]) := by
+  intro rs
+  have hi : rs[a.length]? = some (.datagram b p) := by simp [rs]
+  have htw : (a ++ .datagram b p :: .readError :: c).takeWhile ReadResult.isDatagram = a ++ [.datagram b p] := by
+    rw [List.takeWhile_append_of_pos (by simpa [List.all_eq_true] using ha)]
+    simp [List.takeWhile, ReadResult.isDatagram]
+  have hlive : a.length < (rs.takeWhile ReadResult.isDatagram).length := by
+    simp only [rs, htw]; simp
+  refine ⟨C14_exactly_once6 dec6 rs a.length b p m hi hlive hd, ?_, ?_⟩
+  · exact (C14_exit6 dec6 rs).1.2 (by simp [rs])
+  · have := C14_exit_stops6 dec6 (a ++ [.datagram b p]) c
+    simpa [rs, List.append_assoc] using this
+
+theorem C14_read_completing_during_close6_dec6 (a c : List ReadResult)
+    (ha : a.all ReadResult.isDatagram = true) (b : Bytes) (p : Peer) (m : V6.Msg6)
+    (hd : V6.dec6 (b.take readBufLen) = .ok m) :
+    let rs := a ++ .datagram b p :: .readError :: c
+    (serve6dec rs).invocations.filter (fun v => v.idx == a.length) = [⟨a.length, m, p⟩] ∧
+      (serve6dec rs).exit = .returned ∧
+      serve6dec rs = serve6dec (a ++ [.datagram b p, .readError]) :=
+  C14_read_completing_during_close6 decode6 a c ha b p m (by simp [decode6, hd, Res.toOption])
+
+theorem C14_read_completing_during_close4 (a c : List ReadResult)
+    (ha : a.all ReadResult.isDatagram = true) (b : Bytes) (p q : Peer) (m : V4.Pkt4)
+    (h : SocketPeers (a ++ .datagram b p :: .readError :: c))
+    (hd : V4.dec4 (b.take readBufLen) = .ok m) (hp : peer4 p = .ok q) :
+    let rs := a ++ .datagram b p :: .readError :: c
+    (serve4 rs).invocations.filter (fun v => v.idx == a.length) = [⟨a.length, m, q⟩] ∧
+      (serve4 rs).exit = .returned ∧
+      serve4 rs = serve4 (a ++ [.datagram b p, .readError]) := by
+  intro rs
+  have hi : rs[a.length]? = some (.datagram b p) := by simp [rs]
+  have htw : (a ++ .datagram b p :: .readError :: c).takeWhile ReadResult.isDatagram = a ++ [.datagram b p] := by
+    rw [List.takeWhile_append_of_pos (by simpa [List.all_eq_true] using ha)]
+    simp [List.takeWhile, ReadResult.isDatagram]
+  have hlive : a.length < (rs.takeWhile ReadResult.isDatagram).length := by
+    simp only [rs, htw]; simp
+  refine ⟨C14_exactly_once4 rs h a.length b p q m hi hlive hd hp, ?_, ?_⟩
+  · exact (C14_exit4 rs h).1.2 (by simp [rs])
+  · have := C14_exit_stops4 (a ++ [.datagram b p]) c
+    simpa [rs, List.append_assoc] using this
+
 end Dhcp.Server
